@@ -382,12 +382,15 @@ pub fn run(run: &Run) {
     run.rule("six families × designs {intercept; +covariate over {-1,0,1}; +indicator; linear+quadratic} with n rows × every response vector over the family alphabet ({0,1}; {0,1,2,3}; {.5,1,2,4}; {-1,0,1,2}) × weights {none, pattern} × offsets {none, pattern} × α in {0,.1,1,10} × tolerance in {1e-5,1e-12} (thorough {1e-5,1e-10,1e-14}) × iteration budgets (all 1..=25 on 1/16 of the responses; elsewhere 25 and on a third also 3 and 5; thorough {2,3,4,6,10,25}); every Ok result is judged by the penalised score equations (Newton decrement in double-double), deviance, dispersion, standard errors and predictions; Err results are never judged; non-trivial = instance with a moderate finite MLE");
     let thorough = run.thorough();
     let fams = [Fam::Gaussian, Fam::Bernoulli, Fam::Poisson, Fam::QuasiPoisson, Fam::Gamma, Fam::Exponential];
-    let nrows: Vec<usize> = if run.thorough() { vec![5, 6, 7] } else { vec![5] };
+    let nrows: Vec<usize> = if run.thorough() { vec![5, 6] } else { vec![5] };
     run.bound("rows", format!("{:?} (Bernoulli additionally 8)", nrows));
     for &fam in &fams {
         let mut ns = nrows.clone();
+        if fam == Fam::Gamma && run.thorough() {
+            ns.push(7); // the instance size at which the premature-convergence defect of weighted fits showed
+        }
         if fam == Fam::Bernoulli {
-            ns.extend([6, 7, 8]);
+            ns.extend([6, 7, 8, 9]);
             ns.sort();
             ns.dedup();
         }
